@@ -1798,7 +1798,7 @@ Proof.
         rewrite last_write_app, Ew. exact Ep.
       + fold n1 c in Hq. fold reqs1 in Hq. fold w in Hq. apply (proj1 (last_write_none k w) Ew q Hq Hk).
     - replace (n1 - c)%nat with 0%nat by lia. reflexivity. }
-  destruct (f_window fl || (N.leb o 1 && (f_lagdel fl || N.eqb 0 0 || N.leb n 0))) eqn:Hpath.
+  destruct (f_window fl || (N.leb o 1 && (f_lagdel fl || N.eqb 0 0))) eqn:Hpath.
   - (* the window is replayed *)
     rewrite Nat.mul_0_r. cbn [iter_n y_sender y_recv y_sent y_next y_live y_panics y1].
     eexists. split.
@@ -2274,7 +2274,7 @@ Proof.
   destruct (N.eqb_spec o 0) as [E0|_]; [lia|]. destruct (N.eqb_spec n 0) as [E0|_]; [lia|]. cbn [orb].
   unfold range. rewrite Hfr, Hrange, somes_map_some.
   unfold last_of. cbn [y_recv y1 rc_last aget]. rewrite N.add_0_l.
-  destruct (f_window fl || (N.leb o 1 && (f_lagdel fl || N.eqb 0 0 || N.leb n 0))) eqn:Hpath.
+  destruct (f_window fl || (N.leb o 1 && (f_lagdel fl || N.eqb 0 0))) eqn:Hpath.
   - (* window *)
     rewrite Nat.mul_0_r. cbn [iter_n y_sender y_recv y_sent y_next y_live y_panics y1].
     set (W := skipn (n1 - c) evs1).
